@@ -205,6 +205,8 @@ pub struct Slot {
     pid: i32,
     sched: Sched,
     started: Instant,
+    /// how often this schedule was started again because the OS was out of a resource
+    env_retries: u32,
 }
 
 fn new_slot() -> Slot {
@@ -226,6 +228,7 @@ fn new_slot() -> Slot {
                 expect_fp: 0,
             },
             started: Instant::now(),
+            env_retries: 0,
         }
     }
 }
@@ -281,6 +284,7 @@ fn launch(sc: &Scenario, slot: &mut Slot, sched: Sched) {
         slot.pid = pid;
         slot.sched = sched;
         slot.started = Instant::now();
+        slot.env_retries = 0;
     }
 }
 
@@ -502,7 +506,7 @@ pub struct Opts {
 }
 
 fn is_machinery(status: u32) -> bool {
-    matches!(status, ST_NONDET | ST_TIMEOUT | ST_TOOMANY)
+    matches!(status, ST_NONDET | ST_TIMEOUT | ST_TOOMANY | ST_ENV)
 }
 
 pub fn explore(sc: &Scenario, opts: &Opts) -> ScenarioResult {
@@ -577,6 +581,16 @@ pub fn explore(sc: &Scenario, opts: &Opts) -> ScenarioResult {
             slot.pid = 0;
             inflight -= 1;
             let sum = read_summary(slot, st);
+            if sum.status == ST_ENV && slot.env_retries < 30 {
+                // resource exhaustion of the machine (e.g. no ephemeral port left under load): same schedule again, later
+                std::thread::sleep(std::time::Duration::from_millis(200 + 100 * slot.env_retries as u64));
+                let n = slot.env_retries + 1;
+                let sched = slot.sched.clone();
+                launch(sc, slot, sched);
+                slot.env_retries = n;
+                inflight += 1;
+                continue;
+            }
             let sh = unsafe { &*slot.shared };
             let n = (sh.n_choices as usize).min(MAX_CHOICES);
             let count_it = !(d == 0 && shard_k != 0);
